@@ -12,7 +12,7 @@ from .. import common, tlc
 
 PID = "C13"
 N = 64
-INV = ["CallerUntouched", "AnalyzerSeesZeroFilled", "SharedOnlyIfNeverWritten", "Emit"]
+INV = ["CallerUntouched", "AnalyzerSeesZeroFilled", "SharedOnlyIfNeverWritten", "AliasDefinitionsAgree", "Emit"]
 BASE_ATTRS = ("XX", "YY", "XY", "M2", "S2", "S12", "f", "L", "K")
 
 
@@ -107,6 +107,25 @@ def run_scenario(item):
     return probs
 
 
+def observe(inp):
+    """What the real analyzer did with the caller's object (one InputTrace event)."""
+    import speckit
+    inp = dict(inp, bad=[tuple(b) for b in inp["bad"]])
+    x, y = base_record()
+    obj, watch = materialise(inp, x, y)
+    before = [w.tobytes() for w in watch]
+    a = speckit.SpectrumAnalyzer(obj, 2.0, Jdes=12, Kdes=4, olap=0.5)
+    shares = int(any(np.shares_memory(a.data, w) for w in watch))
+    zf = zero_filled(inp, x, y)
+    return {"layout": inp["layout"], "dtype": inp["dtype"], "mem": inp["mem"], "nbad": len(inp["bad"]), "shares": shares,
+            "abad": int(np.count_nonzero(~np.isfinite(a.data))), "changed": int(any(w.tobytes() != b for w, b in zip(watch, before))),
+            "zeroed": int(np.array_equal(np.asarray(a.data), zf))}
+
+
+def observe_chunk(inps):
+    return {"meta": {"n": len(inps)}, "c": {}, "ev": [observe(i) for i in inps]}
+
+
 FINITE_ATTRS = ["Gxx", "Gyy", "Gxy", "ENBW", "psd", "asd", "ps", "csd", "Gyx", "Hxy", "Hyx", "coh", "ccoh", "cs", "tf", "cf",
                 "cf_rad", "cf_deg", "cf_rad_unwrapped", "cf_deg_unwrapped", "GyyCx", "GyyRx", "GyySx", "XX_mean", "YY_mean",
                 "XY_M2", "XY_emp_var", "XY_emp_dev", "Gxx_emp_dev", "Gxy_emp_dev", "Gxx_dev", "Gyy_dev", "Gxx_error", "Gyy_error"]
@@ -169,6 +188,18 @@ def run(tier):
                         {"kind": "input_scenario", "inp": s, "order": o, "backend": b, "clause": clause, "detail": detail,
                          "message": f"{clause}: {detail} (scenario {s}, order={o}, backend={b})"})
     V.sample({"scenario": items[len(items) // 2][0], "order": items[len(items) // 2][1]})
+    # trace validation: the observed ownership / sanitising outcome of every scenario against Input.tla
+    from .. import traces
+    chunks = [scns[k::8] for k in range(8)]
+    trs = common.pmap(observe_chunk, chunks, chunksize=1)
+    vd, tres = traces.validate("InputTrace", f"{PID}_trace", trs, constants=dict(SanitiseInPlace=False, NLen=4, EmitCases=False), spec="TSpec")
+    V.model(tres, "InputTrace.tla (observed buffer ownership and sanitising of every scenario)")
+    V.add("traces_validated_against_impl", len(trs))
+    for t, v in zip(trs, vd):
+        for (l, clause) in v:
+            e = t["ev"][l - 1]
+            V.violation(f"{PID}|trace|{clause}|{e['layout']}|{e['dtype']}|{e['mem']}|{'nonfinite' if e['nbad'] else 'finite'}",
+                        {"kind": "input_trace", "event": e, "message": f"InputTrace rejected {e}: {clause}"})
     fin = [(k, m, o, b, f) for k in ("zero", "const", "random", "ramp") for m in ("auto", "csd") for o in (-1, 0, 1, 2)
            for b in ("numba", "numpy") for f in ("values_first", "errors_first", "frame_first")]
     out = common.pmap(finite_scenario, fin, chunksize=8)
